@@ -197,7 +197,7 @@ def translate(cell, mode, tok):
             while i < n and not acts[i][0].startswith("loop-end"):
                 i += 1
             i += 1
-            while i < n and acts[i][0] in ("self.generate_implied_end_except", "self.expect_to_close") and acts[i][1] and acts[i][1][0].startswith("loop("):
+            while i < n and acts[i][0] in ("self.generate_implied_end_except", "self.expect_to_close") and acts[i][1] and (acts[i][1][0].startswith("loop(") or "(item)" in acts[i][1][0]):
                 i += 1
             steps.append("close-item-loop")
             continue
